@@ -361,9 +361,34 @@ def process_dict_breadth_first(parent_node, type_name, value, func=lambda x, y: 
     :return (list): the collected child nodes
     """
     # we wrap the keys() in a call to list to prevent concurrent changes
-    return [Node(value=NodeValue(func(type_name, key), value[key], key), parent=parent_node) for key in
-            list(value.keys()) if
+    return [Node(value=NodeValue(func(type_name, name), value[key], name), parent=parent_node) for key, name in
+            [(key, key_to_name(key)) for key in list(value.keys())] if
             key in value]
+
+
+def key_to_name(key) -> str:
+    """
+    Get the variable name to use for a dictionary key.
+
+    :param key: the key, which can be any hashable value
+    :return: the key if it is a string, else its string form
+    """
+    if isinstance(key, str):
+        return key
+    return safe_str(key)
+
+
+def safe_str(value) -> str:
+    """
+    Convert a value to a string, without letting a failing __str__ or __repr__ escape.
+
+    :param value: the value to convert
+    :return: the string form, or a placeholder naming the type
+    """
+    try:
+        return str(value)
+    except Exception:
+        return f'{type(value)}@{id(value)}'
 
 
 def process_list_breadth_first(var_collector: Collector, parent_node: ParentNode, value) -> List[Node]:
